@@ -136,7 +136,7 @@ def bump(d, k):
 
 def new_hist():
     h = {"key:%s" % l: {} for l in LEVELS}
-    h.update({"kind": {}, "packages": {}, "interfaces_per_pkg": {}, "configs_per_iface": {}, "dump": {}, "cli": {},
+    h.update({"history": {}, "kind": {}, "packages": {}, "interfaces_per_pkg": {}, "configs_per_iface": {}, "dump": {}, "cli": {},
               "null_nodes": 0, "aliased_configs": 0, "nested_packages": 0, "iface_with_config_and_configs": 0})
     return h
 
@@ -299,7 +299,14 @@ def listing(d):
 
 
 def run_case(ctx, idx, text, cli="explicit", pre_out=None, stream="main"):
-    """One scratch directory per case.  Returns the projected observables."""
+    """One scratch directory per case.  Returns the projected observables.
+    pre_out = history of the output path before the observed run:
+      None                      nothing there
+      bytes / ("bytes", b)      a file with that content (stale v3 YAML, other YAML, garbage, empty)
+      ("migrate", textA, how)   `mockery migrate` of ANOTHER v2 file was run to the same output path first
+                                (how = "edited": the v2 file itself was then replaced by the current one;
+                                 how = "other": A lives at another path, e.g. another project's config)
+    Whenever the output path has a history the current v2 file is also migrated to a fresh path."""
     d = ctx.scratch / stream / ("c%05d" % idx)
     shutil.rmtree(d, ignore_errors=True)
     d.mkdir(parents=True)
@@ -311,9 +318,22 @@ def run_case(ctx, idx, text, cli="explicit", pre_out=None, stream="main"):
     (d / "out").mkdir()
     (d / inname).parent.mkdir(exist_ok=True)
     data = text if isinstance(text, bytes) else text.encode()
+    if isinstance(pre_out, (bytes, bytearray)):
+        pre_out = ("bytes", bytes(pre_out))
+    first = None
+    if pre_out is not None and pre_out[0] == "bytes":
+        (d / outname).write_bytes(pre_out[1])
+    elif pre_out is not None:
+        _, text_a, how = pre_out
+        name_a = inname if how == "edited" else "other/v2a.yml"
+        (d / name_a).parent.mkdir(exist_ok=True)
+        (d / name_a).write_bytes(text_a.encode())
+        cmd_a = [ctx.bins["mockery"], "migrate"] + ([] if (cli == "search" and how == "edited") else ["--config", name_a])
+        if cli != "default-out":
+            cmd_a += ["--outfile", outname]
+        pa = run(cmd_a, cwd=d, env=base_env(), timeout=120)
+        first = {"exit": classify(pa), "cmd": " ".join(cmd_a[1:]), "out_text": (d / outname).read_text(errors="replace") if (d / outname).exists() else None}
     (d / inname).write_bytes(data)
-    if pre_out is not None:
-        (d / outname).write_bytes(pre_out)
     before = listing(d)
     cmd = [ctx.bins["mockery"], "migrate"]
     if cli != "search":
@@ -323,11 +343,23 @@ def run_case(ctx, idx, text, cli="explicit", pre_out=None, stream="main"):
     p = run(cmd, cwd=d, env=base_env(), timeout=120)
     after = listing(d)
     obs = {"exit": classify(p), "rc": p.returncode, "cmd": " ".join(cmd[1:]), "in": inname, "out": outname}
+    obs["history"] = None if pre_out is None else pre_out[0] + ("" if pre_out[0] == "bytes" else ":" + pre_out[2])
+    obs["first_run"] = first
+    if pre_out is not None:
+        # reference: the same v2 file migrated to a path that does not exist yet
+        (d / "fresh").mkdir()
+        cmd_f = [ctx.bins["mockery"], "migrate"] + ([] if cli == "search" else ["--config", inname]) + ["--outfile", "fresh/v3.yml"]
+        pf = run(cmd_f, cwd=d, env=base_env(), timeout=120)
+        obs["fresh_exit"] = classify(pf)
+        obs["fresh_bytes"] = (d / "fresh" / "v3.yml").read_bytes() if (d / "fresh" / "v3.yml").exists() else None
+        obs["out_bytes"] = (d / outname).read_bytes() if (d / outname).exists() else None
     changed = sorted(set(dict(before)) ^ set(dict(after)) | {f for f, h in after if dict(before).get(f, h) != h})
     obs["changed_files"] = changed
     obs["input_unchanged"] = (d / inname).exists() and sha(d / inname) == hashlib.sha256(data).hexdigest()
     outp = d / outname
-    obs["out_exists"] = outp.exists() and outname in changed
+    # (a pre-existing output that a failing run left alone is not "written"; a successful run may
+    #  rewrite the very bytes that an earlier migration of the same file left there)
+    obs["out_exists"] = outp.exists() and (outname in changed or (obs["exit"] == "ok" and pre_out is not None))
     obs["out_text"] = None
     obs["load"] = None
     if obs["exit"] == "panic":
@@ -414,6 +446,13 @@ def oracle_cfg(where, c2, c3, top, errs):
             errs.append("%s: %s = %r has no v2 origin at this level" % (where, k3, v3))
 
 
+def text_diff(a, b):
+    import difflib
+    a = (a or b"").decode(errors="replace").splitlines()
+    b = (b or b"").decode(errors="replace").splitlines()
+    return "\n".join(list(difflib.unified_diff(a, b, "fresh-path", "existing-outfile", lineterm="", n=1))[:40])
+
+
 def oracle(v2, v3, obs):
     errs = []
     if obs["exit"] != "ok":
@@ -421,7 +460,14 @@ def oracle(v2, v3, obs):
         return errs
     if not obs["input_unchanged"]:
         errs.append("the input file was modified")
-    if obs["changed_files"] != [obs["out"]]:
+    if obs.get("history") is not None:
+        # the result depends only on the current v2 file
+        if obs.get("fresh_exit") != obs["exit"]:
+            errs.append("outfile already existed (%s): exit class %s, but %s when migrating to a fresh path" % (obs["history"], obs["exit"], obs.get("fresh_exit")))
+        elif obs.get("fresh_bytes") != obs.get("out_bytes"):
+            errs.append("outfile already existed (%s): the written file differs from migrating the same v2 file to a fresh path:\n%s"
+                        % (obs["history"], text_diff(obs.get("fresh_bytes"), obs.get("out_bytes"))))
+    if obs["changed_files"] != [obs["out"]] and not (obs.get("history") is not None and obs["changed_files"] == []):
         errs.append("files created/changed: %r (expected only %s)" % (obs["changed_files"], obs["out"]))
     if not isinstance(v3, dict):
         errs.append("output is not a YAML mapping: %r" % (v3,))
@@ -593,16 +639,16 @@ def shrink(ctx, v2, fails, budget=400):
 def category(errs):
     """coarse class of an oracle failure: which clause of the property fails"""
     e = errs[0]
-    for key in ("strict loader", "exit class", "input file was modified", "files created", "no v2 origin", "is not set in v2",
+    for key in ("strict loader", "exit class", "input file was modified", "fresh path", "files created", "no v2 origin", "is not set in v2",
                 "names differ", "configs entries", "not parseable", "configuration node", "harness"):
         if any(key in x for x in errs):
             return key
     return "value" if " but v3 " in e else e[:40]
 
 
-def evaluate(ctx, v2, idx=99990, cli="explicit"):
+def evaluate(ctx, v2, idx=99990, cli="explicit", pre=None):
     text = dump(v2, sort_keys=False, allow_unicode=True, default_flow_style=False)
-    obs = run_case(ctx, idx, text, cli, stream="shrink")
+    obs = run_case(ctx, idx, text, cli, pre, stream="shrink")
     v3 = None
     if obs["out_text"] is not None:
         try:
@@ -876,6 +922,69 @@ def witness_inputs(rng):
     return w
 
 
+# ---------------------------------------------------------------------------------------------
+# what the output path holds before the observed run
+LEGACY = {"config": {"recursive": True, "include-regex": "^Old.*", "mock-build-tags": "legacy", "_anchors": {"old": 1}},
+          "interfaces": {"OldThing": {"config": {"mockname": "OldThingMock", "with-expecter": False},
+                                      "configs": [{"unroll-variadic": True, "mockname": "OldA"}, {"outpkg": "oldpkg"}]}}}
+STALE_V3 = {"template": "matryer", "template-data": {"stale": True, "unroll-variadic": False, "boilerplate-file": "old.txt"},
+            "structname": "Stale{{.InterfaceName}}", "formatter": "gofmt", "dir": "stale/dir", "_anchors": {"stale": [1, 2]},
+            "packages": {"example.com/stale": {"config": {"all": True, "template-data": {"k": 1}},
+                                               "interfaces": {"Old": {"config": {"pkgname": "old"}, "configs": [{"structname": "X"}]}}}}}
+
+
+def gen_history(rng, hist, tree):
+    r = rng.random()
+    if r < 0.45:
+        bump(hist["history"], "fresh"); return None
+    how = rng.choice(["edited", "other"])
+    if r < 0.63:
+        a = gen_tree(rng, new_hist(), rng.choice(["medium", "dense", "anchors", "full"]))
+        bump(hist["history"], "migrated-other-v2:" + how)
+        return ("migrate", dump_yaml(rng, a, new_hist()), how)
+    if r < 0.75:
+        # the current file is what is left of A after packages / keys were removed from it
+        a = json.loads(json.dumps(tree))
+        pk = a.get("packages") or {}
+        a["packages"] = pk
+        pk["example.com/x/legacy"] = json.loads(json.dumps(LEGACY))
+        pk[rng.choice(PKG_NAMES[:8]) + "/gone"] = {"config": gen_cfg(rng, 0.4, "pkg", "gone", new_hist())}
+        for k in ("boilerplate-file", "dir", "mock-build-tags", "exclude", "_anchors", "with-expecter"):
+            if k not in a and rng.random() < 0.6:
+                a[k] = gen_value(rng, k, "removed")
+        bump(hist["history"], "migrated-superset-v2:" + how)
+        return ("migrate", dump(a, sort_keys=False, allow_unicode=True), how)
+    if r < 0.81:
+        bump(hist["history"], "migrated-same-v2:" + how)
+        return ("migrate", dump(json.loads(json.dumps(tree)), sort_keys=False, allow_unicode=True), how)
+    if r < 0.89:
+        t = json.loads(json.dumps(STALE_V3))
+        t["template"] = rng.choice(["matryer", "testify", "file://x.templ", ""])
+        bump(hist["history"], "bytes:v3-yaml")
+        return ("bytes", dump(t, sort_keys=False).encode())
+    k = rng.choice(["other-yaml", "garbage", "empty", "long-stale"])
+    bump(hist["history"], "bytes:" + k)
+    return ("bytes", {"other-yaml": b"- a\n- {b: 1}\nnot: a mapping at top\n" if rng.random() < 0.5 else b"foo: bar\npackages: 7\n",
+                      "garbage": rng.choice([b"\x00\x01\xff\xfe{{{", b"\tpackages: [\n", b"packages:\n  p: {config: {all: tru"]),
+                      "empty": b"", "long-stale": b"stale: content\n" * 200}[k])
+
+
+def pre_to_json(pre):
+    if pre is None:
+        return None
+    if pre[0] == "bytes":
+        return {"kind": "bytes", "hex": pre[1].hex(), "text": pre[1].decode(errors="replace")[:2000]}
+    return {"kind": "migrate", "v2_yaml_first": pre[1], "how": pre[2]}
+
+
+def pre_from_json(j):
+    if not j:
+        return None
+    if j["kind"] == "bytes":
+        return ("bytes", bytes.fromhex(j["hex"]))
+    return ("migrate", j["v2_yaml_first"], j["how"])
+
+
 def corpus():
     d = VERIF / "corpus" / "C19"
     return [(f.name, f.read_text()) for f in sorted(d.glob("*.yml"))] if d.exists() else []
@@ -904,7 +1013,7 @@ def check(ctx, only=None):
     # ---------------- main stream
     inputs = []                                   # (label, yaml text, cli variant, pre-existing output)
     if only is not None:
-        inputs = [(o.get("label", "replay"), o["v2_yaml"], o.get("cli", "explicit"), None) for o in only]
+        inputs = [(o.get("label", "replay"), o["v2_yaml"], o.get("cli", "explicit"), pre_from_json(o.get("outfile_history"))) for o in only]
     else:
         for name, text in corpus():
             inputs.append(("corpus:" + name, text, "explicit", None))
@@ -920,7 +1029,7 @@ def check(ctx, only=None):
             tree = gen_tree(rng, hist, kind, single)
             text = dump_yaml(rng, tree, hist)
             cli = rng.choice(["explicit"] * 6 + ["default-out", "search"])
-            pre = rng.choice([None, None, None, b"stale: content\n" * 200, b""])
+            pre = gen_history(rng, hist, tree)
             bump(hist["cli"], cli + ("+existing-out" if pre is not None else ""))
             inputs.append(("gen%d" % i, text, cli, pre))
     parsed = [load_yaml(t) for _, t, _, _ in inputs]
@@ -1044,17 +1153,40 @@ def check(ctx, only=None):
         reported.add(cat)
         label, text, cli, pre = inputs[i]
         def fails(cand):
-            e = evaluate(ctx, cand, cli=cli)[3]
+            e = evaluate(ctx, cand, cli=cli, pre=pre)[3]
             return bool(e) and category(e) == cat
         small = shrink(ctx, parsed[i], fails) if isinstance(parsed[i], dict) else parsed[i]
-        stext, sobs, sv3, serrs = evaluate(ctx, small, cli=cli) if isinstance(small, dict) else (text, obs[i], outs[i], oracle_fail[i])
+        if isinstance(small, dict) and pre is not None and pre[0] == "migrate":
+            # then shrink the v2 file of the earlier run, keeping the current one fixed
+            try:
+                first = load_yaml(pre[1])
+            except yaml.YAMLError:
+                first = None
+            if isinstance(first, dict):
+                def fails_first(cand):
+                    e = evaluate(ctx, small, cli=cli, pre=("migrate", dump(cand, sort_keys=False, allow_unicode=True), pre[2]))[3]
+                    return bool(e) and category(e) == cat
+                sfirst = shrink(ctx, first, fails_first)
+                if sfirst is not first:
+                    pre = ("migrate", dump(sfirst, sort_keys=False, allow_unicode=True, default_flow_style=False), pre[2])
+        stext, sobs, sv3, serrs = evaluate(ctx, small, cli=cli, pre=pre) if isinstance(small, dict) else (text, obs[i], outs[i], oracle_fail[i])
         if not serrs:
+            pre = inputs[i][3]
             stext, sobs, sv3, serrs = text, obs[i], outs[i], oracle_fail[i]
+        steps = []
+        if sobs.get("first_run"):
+            steps.append("mockery %s   [earlier run, v2 file = outfile_history.v2_yaml_first]" % sobs["first_run"]["cmd"])
+        elif pre is not None:
+            steps.append("(the output path already holds outfile_history.text)")
+        steps.append("mockery %s   [observed run, v2 file = v2_yaml]" % sobs["cmd"])
         rp = ctx.write_replay("oracle-%d" % i, {
             "what": serrs, "v2_yaml": stext, "cli": cli, "label": label, "failing_cases_in_this_run": sum(1 for j in oracle_fail if category(oracle_fail[j]) == cat),
+            "outfile_history": pre_to_json(pre), "steps": steps,
             "command": "mockery %s   (then: mockery showconfig --config %s)" % (sobs["cmd"], sobs["out"]),
-            "observed": {k: sobs.get(k) for k in ("exit", "rc", "changed_files", "input_unchanged", "load", "load_msg", "trace")},
-            "v3_yaml": sobs.get("out_text"), "original_v2_yaml": text if stext != text else None})
+            "observed": {k: sobs.get(k) for k in ("exit", "rc", "changed_files", "input_unchanged", "load", "load_msg", "trace", "history", "fresh_exit")},
+            "v3_yaml": sobs.get("out_text"),
+            "v3_yaml_when_migrated_to_a_fresh_path": sobs["fresh_bytes"].decode(errors="replace") if sobs.get("fresh_bytes") else None,
+            "original_v2_yaml": text if stext != text else None})
         ctx.violation(rp)
     for m, o, e in m_fail[:3]:
         rp = ctx.write_replay("malformed-%s" % m["kind"], {"what": e, "v2_yaml": m["text"], "kind": m["kind"], "observed": o, "malformed": True})
@@ -1067,7 +1199,7 @@ def check(ctx, only=None):
         for i in [b for b in bad if b >= 0][:3]:
             label, text, cli, pre = inputs[i]
             exp = coq_show(ctx, H, "explain (%s)" % case_term(parsed[i], obs[i], outs[i]), name="explain_%d" % i)
-            detail.append({"label": label, "v2_yaml": text, "cli": cli, "v3_yaml": obs[i]["out_text"], "observed": {k: obs[i].get(k) for k in ("exit", "load")},
+            detail.append({"label": label, "v2_yaml": text, "cli": cli, "outfile_history": pre_to_json(pre), "v3_yaml": obs[i]["out_text"], "observed": {k: obs[i].get(k) for k in ("exit", "load")},
                            "model_vs_output (code, only in model, only in output, model's loader verdict)": exp[:6000]})
         rp = ctx.write_replay("correspondence", {
             "what": "model Misc/Migrate.v and `mockery migrate` disagree; the direct oracle found no failing input among %d" % len(inputs),
@@ -1107,6 +1239,8 @@ def check(ctx, only=None):
         "seeded v2 trees: every one of the 46 v2 keys set independently with probability 0 / 0.1 / 0.4 / 0.85 / 1 (plus trees with exactly one key at "
         "one level) at top, package config, interface config and configs entries; 0-4 packages (names with YAML-significant characters, nested paths), "
         "0-3 interfaces, 0-3 configs entries, null nodes, aliased configs; written by PyYAML in block/flow style with shuffled keys. "
+        "the output path is fresh (45%) or has a history: an earlier `mockery migrate` of another / a superset / the same v2 file to the same path (two-step history), "
+        "or a pre-seeded v3 file / other YAML / garbage / empty file - then the file must be byte-identical to migrating the same v2 file to a fresh path. "
         "non-trivial = a mapped key is set at two or more levels; distinct by v2 file text. evaluations = main + loader-stream + malformed cases.",
         samples,
         extra={"phase_seconds": phase, "input_histogram": hist, "mapped_key_level_pairs_covered": len(pairs), "mapped_key_level_pairs_possible": len(MAPPED) * 4,
@@ -1158,8 +1292,10 @@ def replay(ctx, path):
         return
     cases = []
     if d.get("v2_yaml"):
-        cases.append({"v2_yaml": d["v2_yaml"], "cli": d.get("cli", "explicit"), "label": d.get("label", "replay")})
+        cases.append({"v2_yaml": d["v2_yaml"], "cli": d.get("cli", "explicit"), "label": d.get("label", "replay"),
+                      "outfile_history": d.get("outfile_history")})
     for e in d.get("examples", []):
         if e.get("v2_yaml") and e["v2_yaml"] != d.get("v2_yaml"):
-            cases.append({"v2_yaml": e["v2_yaml"], "cli": e.get("cli", "explicit"), "label": e.get("label", "replay")})
+            cases.append({"v2_yaml": e["v2_yaml"], "cli": e.get("cli", "explicit"), "label": e.get("label", "replay"),
+                          "outfile_history": e.get("outfile_history")})
     check(ctx, only=cases)
